@@ -122,10 +122,12 @@ def random_histories(rep, nhist):
         for k in range(40):
             if rng.random() < 0.3:
                 d, t = rng.choice(render.SEP_CONFIGS)
-                steps.append({"op": "set_dec", "v": d})
-                evs.append({"ev": "set_dec", "v": d})
-                steps.append({"op": "set_tho", "v": t})
-                evs.append({"ev": "set_tho", "v": t})
+                pair = [("set_dec", d), ("set_tho", t)]
+                if rng.random() < 0.5:
+                    pair.reverse()         # the two setters are independent: either order leads to the same configuration
+                for op, v in pair:
+                    steps.append({"op": op, "v": v})
+                    evs.append({"ev": op, "v": v})
                 cur = dict(dec=d, tho=t)
                 continue
             c = render.cfg_with(dec=cur["dec"], tho=cur["tho"])
